@@ -449,10 +449,13 @@ def write_replay(pid, obj):
 
 
 def write_evidence(pid, tier, seed, level, coverage, assumptions, wall, violations):
-    (ROOT / 'evidence').mkdir(exist_ok=True)
+    # runs against a scratch copy of the repository (seeded changes, builder worktrees) must not overwrite the
+    # evidence of the real tree
+    evdir = ROOT / ('evidence' if str(REPO) == '/repo' else 'evidence-alt')
+    evdir.mkdir(exist_ok=True)
     ev = {'property_id': pid, 'tier': tier, 'seed': seed, 'level': level, 'coverage': coverage,
           'assumptions': assumptions, 'wall_s': round(wall, 2), 'violations': violations}
-    (ROOT / 'evidence' / f'{pid}.json').write_text(json.dumps(ev, indent=1, default=repr))
+    (evdir / f'{pid}.json').write_text(json.dumps(ev, indent=1, default=repr))
 
 
 def main(argv):
